@@ -174,6 +174,10 @@ fn handle(ctx: &mut rink_core::Context, req: &J) -> J {
             if let Some(flag) = req.get("save_previous_result").and_then(|x| x.as_bool()) {
                 ctx.save_previous_result = flag;
             }
+            let humanize_before = ctx.use_humanize;
+            if let Some(flag) = req.get("use_humanize").and_then(|x| x.as_bool()) {
+                ctx.use_humanize = flag;
+            }
             let mut last = J::Null;
             if let Some(pre) = req.get("pre").and_then(|p| p.as_array()) {
                 for p in pre {
@@ -191,9 +195,14 @@ fn handle(ctx: &mut rink_core::Context, req: &J) -> J {
                     },
                 );
             }
+            if let Some(o) = r.as_object_mut() {
+                o.insert("ctx_use_humanize".into(), json!(ctx.use_humanize));
+                o.insert("ctx_save_previous_result".into(), json!(ctx.save_previous_result));
+            }
             // leave the shared context clean for the next request
             ctx.previous_result = None;
             ctx.save_previous_result = false;
+            ctx.use_humanize = humanize_before;
             r
         }
         "numeric_op" => guarded(|| {
@@ -392,6 +401,34 @@ fn handle(ctx: &mut rink_core::Context, req: &J) -> J {
                 Err(SubstanceGetError::Generic(e)) => json!({"outcome": "ok", "amount": amount, "ok": false, "kind": "generic", "error": e}),
                 Err(SubstanceGetError::Conformance(l, r)) => json!({"outcome": "ok", "amount": amount, "ok": false, "kind": "conformance",
                                                                     "left": out_number(&l), "right": out_number(&r)}),
+            }
+        }),
+        "formula" => guarded(|| {
+            // substance_from_formula (pub) over a symbol table built from the request
+            use rink_core::runtime::{Properties, Property, Substance};
+            let mut symbols = std::collections::BTreeMap::new();
+            let mut substances = std::collections::BTreeMap::new();
+            for (sym, e) in req["elements"].as_object().unwrap() {
+                let name = e["name"].as_str().unwrap().to_string();
+                let mut props = std::collections::BTreeMap::new();
+                let unit: Dimensionality = vec![(BaseUnit::new("kg"), 1i64), (BaseUnit::new("mol"), -1i64)].into_iter().collect();
+                props.insert("molar_mass".to_string(), Property {
+                    input: Number::one(),
+                    input_name: "amount".to_string(),
+                    output: Number { value: numeric(&e["mass"]), unit },
+                    output_name: "mass".to_string(),
+                    doc: None,
+                });
+                symbols.insert(sym.clone(), name.clone());
+                substances.insert(name.clone(), Substance {
+                    amount: Number::one(),
+                    properties: std::sync::Arc::new(Properties { name, properties: props }),
+                });
+            }
+            match rink_core::parsing::formula::substance_from_formula(req["text"].as_str().unwrap(), &symbols, &substances) {
+                Some(s) => json!({"outcome": "ok", "some": true,
+                                  "molar_mass": s.properties.properties.get("molar_mass").map(|p| out_number(&p.output))}),
+                None => json!({"outcome": "ok", "some": false}),
             }
         }),
         "canon_roundtrip" => guarded(|| {
